@@ -406,7 +406,7 @@ func c19Run(c fw.Case) fw.Verdict {
 	}
 	r := &Runner{E: e, Rng: rng, Cfg: ScenCfg{
 		Type: c.Str("type", tKV), NPeers: np, Writers: wr, NSteps: c.Int("steps", 20), Keys: []string{"a", "b", "c"}, OnDisk: c.Bool("ondisk"),
-		WWrite: 45, WDeliver: 22, WDeliverAll: 4, WDrop: 6, WDup: 4, WBurst: 6, WSync: 4, WConc: 8,
+		WWrite: 45, WDeliver: 22, WDeliverAll: 4, WDrop: 6, WDup: 4, WBurst: 6, WSync: 4, WConc: 8, WSnapshot: 7, WWriteMid: 5, SnapFresh: true,
 		CheckEvery: 1,
 	}}
 	if r.Cfg.OnDisk {
@@ -465,6 +465,9 @@ func c19Run(c fw.Case) fw.Verdict {
 		inj += int(fc.Injects)
 	}
 	r.V.Count("datastore_failures_injected", int64(inj))
+	r.V.Count("snapshot_loads_into_live_store", int64(r.SnapLoads))
+	r.V.Count("snapshot_only_loads_after_restart", int64(r.SnapFreshLoads))
+	r.V.Count("local_writes_in_the_middle_of_a_replication", int64(r.MidWrites))
 	r.V.Count("status_transitions_observed", int64(tr))
 	return r.finish(steps, nil, func() bool {
 		writers := map[int]bool{}
